@@ -80,6 +80,11 @@ def realise(snr, variant):
         return np.nan_to_num(snr), np.where(np.isnan(snr), np.nan, 0.0), np.ones(shape)
     if variant == 4:
         return np.nan_to_num(snr), np.zeros(shape), np.where(np.isnan(snr), np.nan, 1.0)
+    if variant == 5:
+        # a uniform background of -4.5: pixels with the letter F (above the flood clip, below the seeds) have the pixel VALUE
+        # exactly 0.0 while being island members - membership is a matter of (im - bkg)/rms, never of the stored value
+        # (all subtractions are exact for the upper-case letters: Sterbenz, or small dyadic rationals)
+        return snr - 4.5, np.full(shape, -4.5), np.ones(shape)
     rms = np.where((np.add.outer(np.arange(shape[0]), np.arange(shape[1])) % 2) == 0, 0.5, 2.0)
     return snr * rms, np.zeros(shape), rms
 
@@ -121,7 +126,10 @@ def ev_islands(case, ctx):
         clips = case.get("clips") or [[FLOOD, list(SEEDS)]]
         if np.any(np.abs(np.nan_to_num(snr)) >= min(c[0] for c in clips)):
             ctx.nontrivial_n(1)
-        for variant, (FLOOD_, SEEDS_) in itertools.product((0, 1, 2, 3) if "N" in alpha and not case.get("clips") else (0, 1, 2), clips):
+        variants = (0, 1, 2, 3) if "N" in alpha and not case.get("clips") else (0, 1, 2)
+        if "F" in alpha and alpha.upper() == alpha:
+            variants = variants + (5,)
+        for variant, (FLOOD_, SEEDS_) in itertools.product(variants, clips):
             im, bkg, rms = realise(snr, variant)
             res = {}
             for seed in SEEDS_:
